@@ -393,6 +393,17 @@ func (FramesFaults) Execute(pl engine.Plan, c *engine.RunCtx) *engine.Failure {
 						}
 						done = true
 					}
+					if done {
+						// the idiomatic loop stops at the first error; a caller that asks
+						// once more finds that nothing is available: (0, io.EOF)
+						n2, _, err2, pan2, cons2 := callSrc(src, frames[0].spec.Empty())
+						if pan2 != nil {
+							return livenessOrPanic("C07.cut", step, pan2, what+" (second call after the error)")
+						}
+						if n2 != 0 || cons2 != 0 || cause(err2) != io.EOF {
+							return engine.Failf("C07.cut.again", step, "%s: asked once more after the truncated frame, Unmarshal returned (n=%d, consumed=%d, err=%v); nothing was available, want (0, io.EOF)", what, n2, cons2, err2)
+						}
+					}
 					if total != int64(k) {
 						return engine.Failf("C07.cut.total", step, "%s: the counts returned by the read-until-error loop sum to %d, the stream had %d bytes", what, total, k)
 					}
